@@ -13,8 +13,14 @@ MODULE = "workflows.runtime.control_loop"
 
 # ------------------------------------------------------------------ vocabulary
 def matches(w: "StepWorkerWaiter", ev: "Event"):
-    """a waiter accepts the event: exact type and every requirement equal (the code's own test)"""
-    return type(ev) is w.waiting_for_event and all(getattr(ev, k, None) == v for k, v in w.requirements.items())
+    """a waiter accepts the event: it is still waiting (C10: a wait is answered at most once - not yet answered, not
+    timed out), the event has exactly the awaited type and every requirement is equal"""
+    return (
+        w.resolved_event is None
+        and (not w.timed_out)
+        and type(ev) is w.waiting_for_event
+        and all(getattr(ev, k, None) == v for k, v in w.requirements.items())
+    )
 
 
 def any_match(ws: "InternalStepWorkerState", ev: "Event"):
@@ -100,7 +106,7 @@ def routed_one(ws2: "InternalStepWorkerState", ws: "InternalStepWorkerState", ti
 class AddEventTick:
     properties = ["C02", "C10", "C01", "C03", "C04", "C35"]
     clause_props = {
-        "ensures_resolved_waiter_kept": ["C10"],  # (known finding: attributed to one property only)
+        "ensures_resolved_waiter_kept": ["C10"],
     }
     raises = []
 
